@@ -143,7 +143,10 @@ def fn_air_counts(ur):
                 continue
             # impl methods: ...::Type::name ; match the type name when present
             if info.get("impl"):
-                tyname = re.sub(r"<.*", "", info["impl"].split(" for ")[-1]).strip().split("::")[-1]
+                h = info["impl"].split(" for ")[-1].strip()
+                h = re.sub(r"^<[^>]*>\s*", "", h)          # leading generics of the impl header
+                h = h.lstrip("&").strip()
+                tyname = re.sub(r"<.*", "", h).strip().split("::")[-1]
                 if len(segs) < 2 or (segs[-2] != tyname and not segs[-2].startswith("impl&%")):
                     continue
             for k, v in d.items():
@@ -151,6 +154,15 @@ def fn_air_counts(ur):
                 tot += v
         res[key] = (tot, kinds)
     return res
+
+
+def has_contract(unit, key):
+    for it in unit.items:
+        cands = [it] if hasattr(it, "ensures") else list(getattr(it, "fns", {}).values())
+        for fn in cands:
+            if fn.key == key and (fn.ensures or fn.requires):
+                return True
+    return False
 
 
 def locate_in_repo(info, text):
@@ -286,9 +298,8 @@ def check_property(prop, tier, seed, keep=False, verbose=False):
             for k in claimed:
                 info = ur.gen.functions[k]
                 tot, kinds = counts.get(k, (0, {}))
-                if tot == 0:
-                    # functions without any proof obligation (straight-line, no contract) are reported, not fatal
-                    pass
+                if tot == 0 and has_contract(unit, k):
+                    undecided.append("%s: function %s has a contract but the verifier generated zero obligations for it" % (un, k))
                 myfail = [f for f in ur.failures if f["fn"] == k]
                 total_obl += tot
                 fn_table.append({"unit": un, "function": k, "file": info["file"], "lines": info["lines"],
@@ -330,10 +341,11 @@ def check_property(prop, tier, seed, keep=False, verbose=False):
                 undecided.append("probe %s: %s" % (kid, "; ".join(ur.undecided)))
                 continue
             ids = [f["id"] for f in ur.failures]
-            hit = [i for i in ids if i == k["obligation"]]
+            want = k["obligation"] if isinstance(k["obligation"], list) else [k["obligation"]]
+            hit = [i for i in ids if i in want]
             if hit:
-                known_lines.append("KNOWN-FINDING: property=%s %s [%s] %s" % (prop, k["id"], k["obligation"], k["what"]))
-                kf_report.append({"id": k["id"], "obligation": k["obligation"], "still_fails_unguarded": True,
+                known_lines.append("KNOWN-FINDING: property=%s %s [%s] %s" % (prop, k["id"], "; ".join(hit), k["what"]))
+                kf_report.append({"id": k["id"], "obligation": k["obligation"], "failed_unguarded": hit, "still_fails_unguarded": True,
                                   "guard": k.get("guard"), "what": k["what"], "replay": k.get("replay")})
             else:
                 kf_report.append({"id": k["id"], "obligation": k["obligation"], "still_fails_unguarded": False,
